@@ -149,7 +149,9 @@ def build(vn, labels, p, l):
     import pygaps
     v = VARIANTS[vn]
     df = pandas.DataFrame({'pressure': numpy.array(p, dtype=float), 'loading': numpy.array(l, dtype=float),
-                           'branch': BRANCH, 'enth': ENTH, 'txt': TXT}, index=INDEX)
+                           'branch': BRANCH, 'enth': ENTH, 'txt': TXT,
+                           # a recorded saturation pressure (as AIF files carry it): a supplementary column like any other
+                           'p0': [0.9, 0.9, 0.91, 0.91, 0.92, 0.92], 'pressure_saturation': [90000.0] * 6}, index=INDEX)
     mat = pygaps.Material('c02-mat-' + vn, **v['mat'])
     T = v['T'] if labels[6] == 'K' else v['T'] - 273.15
     return pygaps.PointIsotherm(isotherm_data=df, pressure_key='pressure', loading_key='loading', material=mat,
@@ -290,7 +292,8 @@ def expand_factory(space_name, vn):
             # frame (invariant 5) — always
             frame_ok = (iso.data_raw['branch'].tolist() == BRANCH and iso.data_raw['txt'].tolist() == TXT
                         and iso.data_raw['enth'].tolist() == ENTH and list(iso.data_raw.index) == INDEX
-                        and iso.properties == META and list(iso.data_raw.columns) == ['pressure', 'loading', 'branch', 'enth', 'txt'])
+                        and iso.data_raw['p0'].tolist() == [0.9, 0.9, 0.91, 0.91, 0.92, 0.92] and iso.data_raw['pressure_saturation'].tolist() == [90000.0] * 6
+                        and iso.properties == META and list(iso.data_raw.columns) == ['pressure', 'loading', 'branch', 'enth', 'p0', 'pressure_saturation', 'txt'])
             if not frame_ok:
                 report('frame-altered', op, kw, 'branch marks / extra columns / metadata / index changed')
             if not o.ok:
